@@ -8,6 +8,7 @@ package main
 
 import (
 	"bytes"
+	"regexp"
 	"encoding/json"
 	"flag"
 	"fmt"
@@ -394,6 +395,13 @@ func main() {
 		fmt.Fprintf(os.Stderr, "check: %s: %s\n", rp.Violation.Class, rp.Violation.Detail)
 	}
 
+	// 6b. auxiliary race sweep (C17, thorough tier): runtime monitoring of
+	// the same programs on the real runtime under -race. Never gating.
+	var raceSweep map[string]any
+	if prop == "C17" && (*tier == "thorough" || os.Getenv("VERIF_RACE") != "") {
+		raceSweep = runRaceSweep(work)
+	}
+
 	wall := time.Since(start).Seconds()
 	// 7. evidence
 	if !*noEvidence {
@@ -429,6 +437,9 @@ func main() {
 			"components":               map[string]any{"real": meta.Real, "stub": meta.Stub},
 			"instrumentation":          instr,
 			"workers":                  w,
+		}
+		if raceSweep != nil {
+			cov["auxiliary_race_sweep"] = raceSweep
 		}
 		ev := evidence{PropertyID: prop, Tier: *tier, Seed: seed, Level: meta.Level, Coverage: cov,
 			Assumptions: meta.Assumptions, WallS: wall, Violations: violations}
@@ -542,4 +553,89 @@ func selftest(work, bin, findings string, n int) int {
 	}
 	fmt.Println("selftest ok")
 	return 0
+}
+
+// runRaceSweep builds the simulation binary with -race and runs seeded C17
+// programs on the real Go runtime. The race detector's reports naming slip
+// frames are summarised; the result is auxiliary information only.
+func runRaceSweep(work string) map[string]any {
+	res := map[string]any{"note": "runtime monitoring with the Go race detector on the real runtime; not replayable, never produces a VIOLATION"}
+	rbin := filepath.Join(work, "verif-sim-race")
+	var blog bytes.Buffer
+	cmd := exec.Command("go", "build", "-race", "-overlay", filepath.Join(work, "ov", "overlay.json"), "-o", rbin, "./cmd/verif-sim")
+	cmd.Dir = filepath.Join(verifDir, "sim")
+	cmd.Stdout, cmd.Stderr = &blog, &blog
+	if err := cmd.Run(); err != nil {
+		res["error"] = "race build failed: " + blog.String()
+		return res
+	}
+	// The Go runtime ends the process at the first "concurrent map" fatal
+	// error, so the sweep runs in chunks, each its own process.
+	var errb bytes.Buffer
+	programs, fatals := 0, map[string]int{}
+	for chunk := 0; chunk < 16; chunk++ {
+		var out, eb bytes.Buffer
+		c := exec.Command(rbin, "racesweep", "40", fmt.Sprint(chunk+1))
+		c.Dir = work
+		c.Env = append(os.Environ(), "GORACE=halt_on_error=0")
+		c.Stdout, c.Stderr = &out, &eb
+		done := make(chan error, 1)
+		if err := c.Start(); err != nil {
+			res["error"] = err.Error()
+			return res
+		}
+		go func() { done <- c.Wait() }()
+		select {
+		case <-done:
+		case <-time.After(3 * time.Minute):
+			_ = c.Process.Kill()
+		}
+		var summary map[string]float64
+		if json.Unmarshal(out.Bytes(), &summary) == nil {
+			programs += int(summary["programs"])
+		}
+		es := eb.String()
+		errb.WriteString(es)
+		if i := strings.Index(es, "fatal error: "); i >= 0 {
+			msg := es[i:]
+			if j := strings.Index(msg, "\n"); j > 0 {
+				msg = msg[:j]
+			}
+			// first slip frame of the dying goroutine
+			rest := es[i:]
+			if m := regexp.MustCompile(`github\.com/ohler55/(slip[^\s]*?)\((?:0x|\{|\.\.\.)`).FindStringSubmatch(rest); m != nil {
+				msg += " in " + m[1]
+			}
+			fatals[msg]++
+		}
+	}
+	res["programs_completed"] = programs
+	res["process_fatal_errors"] = fatals
+	blocks := strings.Split(errb.String(), "WARNING: DATA RACE")
+	sigs := map[string]int{}
+	for _, b := range blocks[1:] {
+		var tops []string
+		lines := strings.Split(b, "\n")
+		for i := 0; i < len(lines); i++ {
+			l := strings.TrimSpace(lines[i])
+			if strings.HasPrefix(l, "Write at") || strings.HasPrefix(l, "Read at") || strings.HasPrefix(l, "Previous write at") || strings.HasPrefix(l, "Previous read at") {
+				for j := i + 1; j < len(lines) && strings.TrimSpace(lines[j]) != ""; j++ {
+					fl := strings.TrimSpace(lines[j])
+					if strings.HasPrefix(fl, "github.com/ohler55/slip") && !strings.Contains(fl, "/simrt") && j+1 < len(lines) {
+						loc := strings.TrimSpace(lines[j+1])
+						if k := strings.Index(loc, " "); k > 0 {
+							loc = loc[:k]
+						}
+						tops = append(tops, strings.TrimSuffix(strings.TrimPrefix(fl, "github.com/ohler55/"), "()")+" "+filepath.Base(loc))
+						break
+					}
+				}
+			}
+		}
+		sort.Strings(tops)
+		sigs[strings.Join(tops, " <-> ")]++
+	}
+	res["race_reports"] = len(blocks) - 1
+	res["distinct_access_pairs"] = sigs
+	return res
 }
